@@ -310,8 +310,56 @@ def gen_legend():
     return f'{len(legend)} legend entries, {len(arms)} arms'
 
 
+# --------------------------------------------------------------------------------------------
+# Prec: parser.rs `precedence!{ … }` block of `expression()`
+# --------------------------------------------------------------------------------------------
+
+def gen_prec():
+    src = read('compiler/parser/src/parser.rs')
+    m = re.search(r'pub rule expression\(\) -> ExprKind = precedence!\{(.*?)\n    \}', src, re.S)
+    if not m: raise ValueError('precedence! block not found')
+    body = m.group(1)
+    levels = [l for l in re.split(r'\n\s*--\s*\n', body)]
+    rows = []
+    atoms = []
+    for li, lvl in enumerate(levels):
+        for line in lvl.strip().split('\n'):
+            line = line.strip()
+            if not line or line.startswith('//'): continue
+            mm = re.match(r'x:(\(@\)|@) _ tok\(TokenType::(\w+)\)\s*_ y:(\(@\)|@) \{ ExprKind::(compare|binary)\((\w+)::(\w+), x, y\s*\) \}$', line)
+            if mm:
+                left_assoc = mm.group(1) == '(@)' and mm.group(3) == '@'
+                right_assoc = mm.group(1) == '@' and mm.group(3) == '(@)'
+                if not (left_assoc or right_assoc): raise ValueError('unsupported associativity: ' + line)
+                rows.append((li, mm.group(2), mm.group(4), mm.group(5), mm.group(6), left_assoc))
+            else:
+                atoms.append((li, line))
+    if not rows: raise ValueError('no operator rows')
+    out = ['-- GENERATED by translator/gen_tables.py from compiler/parser/src/parser.rs (precedence! block); do not edit',
+           'namespace Gen',
+           'structure PrecRow where',
+           '  level : Nat          -- 0 = binds weakest',
+           '  token : String       -- TokenType variant of the operator',
+           '  ctor : String        -- `compare` (ExprKind::Compare) or `binary` (ExprKind::BinaryOp)',
+           '  opEnum : String      -- CompareOp | Operator',
+           '  op : String          -- variant',
+           '  leftAssoc : Bool',
+           'deriving Repr, DecidableEq',
+           '',
+           'def prec : List PrecRow := [',
+           ',\n'.join(f'  {{ level := {l}, token := "{t}", ctor := "{c}", opEnum := "{e}", op := "{o}", leftAssoc := {"true" if la else "false"} }}' for (l, t, c, e, o, la) in rows),
+           ']',
+           '',
+           '/-- the atom alternatives of the block, in order (level, source text) -/',
+           'def precAtoms : List (Nat × String) := [' + ', '.join(f'({l}, {lean_str(t)})' for l, t in atoms) + ']',
+           'end Gen']
+    write_if_changed('Prec.lean', '\n'.join(out) + '\n')
+    return f'{len(rows)} operators on {len(set(r[0] for r in rows))} levels, {len(atoms)} atoms'
+
+
 TABLES = {
     'Tokens': gen_tokens,
+    'Prec': gen_prec,
     'Legend': gen_legend,
 }
 
